@@ -25,6 +25,7 @@ type Result struct {
 	CaseKey    uint64 // identity of the case for distinct counting
 	Stats      map[string]int
 	Stack      string
+	Leaked     bool // a task goroutine had to be abandoned: the process must not run further simulations
 }
 
 // KnownHit counts occurrences of a listed known finding.
